@@ -56,20 +56,25 @@ def run(chk):
             excs[900 + len(excs)] = e
             return 900 + len(excs) - 1
         fault_cls = rng.choice([E0, E1, E2, E3, OSError, EOFError, ValueError, BrokenPipeError])
-        frames = [proto.frame(ids.login_success, ids.b_login_success())]
+        # in a third of the runs the server has switched compression on: a connection started afterwards (by a handler, or by the
+        # user) begins in plain framing all the same
+        thr = rng.choice([None, None, 64])
+        frames = [proto.frame(ids.login_success, ids.b_login_success(), thr)]
         if origin == 'reaction':
-            frames = [proto.frame(ids.login_disconnect, proto.string('{"text":"go away"}'))]
+            frames = [proto.frame(ids.login_disconnect, proto.string('{"text":"go away"}'), thr)]
         elif origin == 'decoder':
-            frames.append(proto.frame(ids.keep_alive, b''))               # a keep-alive without its id: the decoder raises
+            frames.append(proto.frame(ids.keep_alive, b'', thr))               # a keep-alive without its id: the decoder raises
         elif origin in ('exit', 'after-disconnect'):
-            frames.append(proto.frame(ids.play_disconnect, proto.string('{"text":"bye"}')))
+            frames.append(proto.frame(ids.play_disconnect, proto.string('{"text":"bye"}'), thr))
         elif origin == 'flush':
             # the answer to the keep-alive is still queued when the server's disconnect packet makes the client flush and close;
             # an outgoing listener fails during that flush (disconnect() has already marked the connection as not connected)
-            frames.append(proto.frame(ids.keep_alive, ids.b_keep_alive(7)))
-            frames.append(proto.frame(ids.play_disconnect, proto.string('{"text":"bye"}')))
+            frames.append(proto.frame(ids.keep_alive, ids.b_keep_alive(7), thr))
+            frames.append(proto.frame(ids.play_disconnect, proto.string('{"text":"bye"}'), thr))
         else:
-            frames.append(proto.frame(ids.keep_alive, ids.b_keep_alive(7)))
+            frames.append(proto.frame(ids.keep_alive, ids.b_keep_alive(7), thr))
+        if thr is not None:
+            frames.insert(0, proto.frame(ids.set_compression, proto.varint(thr)))
         servers = [sim.Server([b''.join(frames)], end='idle'), sim.Server([], end='idle'), sim.Server([], end='idle')]
         net = sim.Net(servers).install()
         log = []
@@ -185,6 +190,18 @@ def run(chk):
                 net.run_threads(conn)
             except Exception as e:
                 observed['reconnect'] = exn_name(e)
+            # every later connection of this object (started by a handler or just now) opens with handshake + login start in
+            # plain framing
+            for k, srv in enumerate(servers[1:], 1):
+                if srv.sends:
+                    try:
+                        import c09
+                        h = c09.parse_conn(None, b''.join(srv.sends))
+                        okf = h[:4] == [pv, 'localhost', 25565, 2] and h[4] == ('login_start', ids.sb_login_start, 'user')
+                    except Exception:
+                        okf = False
+                    if not okf:
+                        observed['reconnect'] = 'connection %d opens with %s (not handshake + login start in plain framing)' % (k, b''.join(srv.sends)[:12].hex())
         finally:
             net.uninstall()
         if orig is None:
